@@ -674,7 +674,12 @@ def _c07_runs(tier):
         if tier == "thorough":
             names += ["atlas", "atlas_names2"]
         for g in names:
+            if d == "postgres" and g == "atlas_names2":
+                continue  # 4 jointly symbolic name bytes do not finish within the tier's time limit: split below
             runs.append(dict(cfg, harness=f"VerifHarness_C07_{d}_{g}", reach=["read"], cross=(g not in ("atlas", "atlas_names2"))))
+    # PostgreSQL: two symbolic bytes in the table name, and (separately) two in the column name
+    runs.append(dict(_pg, harness="VerifHarness_C07_postgres_atlas_names2t", reach=["read"], cross=False))
+    runs.append(dict(_pg, harness="VerifHarness_C07_postgres_atlas_names2c", reach=["read"], cross=False))
     runs.append(dict(_lt, harness="VerifHarness_C07_sqlite_foreign2", reach=["read"]))
     # two free bytes in the default and the comment texts (PostgreSQL: a literal's escape syntax may depend on two characters)
     runs.append(dict(_pg, harness="VerifHarness_C07_postgres_atlas_texts2", reach=["read"], cross=False))
@@ -866,7 +871,7 @@ _r5 = {
     "C02": "; expression-part group: an index of a column part and an optional expression part ((b + 1) / (b + 2)), each with a symbolic direction; the named check of the fk+check group carries a symbolic dialect attribute (MySQL NOT ENFORCED, PostgreSQL NO INHERIT)",
     "C03": "; quoting family: two CHECK constraints whose expressions end in 3 and 2 symbolic bytes over {a, ', \\, (, ), blank}",
     "C05": "; connected-planner family: the same template planned on a connection that answers every query with 0 or 1 rows; the unchanged first column may be the AUTOINCREMENT primary key",
-    "C07": "; PostgreSQL with 2 symbolic bytes in the default and in the comment text (Atlas format); SQLite Atlas-format families: the default is raw text or a well-formed double-quoted literal",
+    "C07": "; PostgreSQL with 2 symbolic bytes in the default and in the comment text (Atlas format); SQLite Atlas-format families: the default is raw text or a well-formed double-quoted literal; 2-byte names: jointly in table and column name for MySQL and SQLite (thorough), for PostgreSQL two bytes in the table name and, separately, two in the column name (both tiers; the joint 4-byte family does not finish within the time limit and is outside the claim)",
     "C08": "; prefixes that close a comment directly with the delimiter",
     "C09": "; checkpoint family: any subset of up to 3 files are checkpoints",
     "C12": "; sums family: 2 old / 0..2 new concrete statements chosen among 5 texts whose real SHA-256 digests begin with '7', 'h', '1', 'hl', '1S' (the engine evaluates the real digest of concrete pre-images); file hashes are the real directory checksum (token model), Revision.Hash included in the untouched-history assertion",
